@@ -25,6 +25,11 @@ def gen(tier, rng):
     thorough = tier == "thorough"
     for m in (False, True):
         yield nodegen.self_dial_script(rng, "self-dial-%d" % m, m)
+    # the peer exchange rests on the peer list surviving the wire: node information with address lists of both families round-trips (codec suite, as in C16)
+    from . import C16 as _c16
+    import itertools as _it
+    for sc in _it.islice(_c16._gen_base(tier, rng.fork("codec")), 4):
+        yield sc
     yield nodegen.translated_script(rng, "translated")
     yield nodegen.advertised_script(rng, "advertised")
     yield nodegen.translated_long_script(rng, "translated-long")
